@@ -225,7 +225,7 @@ def run(rep, tier, seed, tr_errors):
         "leaf impedances are taken from the implementation (element formulas are C02's concern); comparison tolerance 1e-9 relative",
         "not modelled: f = 0 / inf limits (sympy), NaN results, float rounding of the sums",
     ]
-    thm_ok, names, out = lib.check_props_file(rep, PROPS_FILE, expect=["C01_impl_sound", "C01_single_frequency_total_correct", "C01_vector_eq_pointwise", "C01_series_law", "C01_parallel_law", "C01_open_branch_contributes_nothing", "C01_shorted_branch_shorts", "C01_series_flatten", "C01_parallel_flatten"])
+    thm_ok, names, out = lib.check_props_file(rep, PROPS_FILE, expect=["C01_impl_sound", "C01_single_frequency_total_correct", "C01_array_total_correct_when_open_branches_are_uniform", "C01_vector_eq_pointwise", "C01_series_law", "C01_parallel_law", "C01_open_branch_contributes_nothing", "C01_shorted_branch_shorts", "C01_series_flatten", "C01_parallel_flatten"])
     cases = []
     direct = []
     idx = 0
